@@ -203,7 +203,9 @@ Definition tpl_refs (t : tpl) : list aref := flat_map path_refs (t_paths t).
 (* what the reflection walk of flows/inspect sees of an action, in struct-field order *)
 Inductive item :=
 | IRef (r : aref)        (* an assets.Reference field, or one element of a slice of references *)
-| ITpl (f : tfield).     (* an `engine:"evaluated"` field *)
+| ITpl (f : tfield).     (* an `engine:"evaluated"` field; this includes the name_match / email_match member of a
+                            group, label or user reference (assets/group.go, label.go, user.go), which the walk
+                            reaches by descending into the reference: it follows its IRef *)
 
 (* action types that save a result through baseAction.saveResult under their result_name *)
 Inductive saver := SvCallClassifier | SvCallResthook | SvCallWebhook | SvOpenTicket | SvTransferAirtime.
